@@ -572,9 +572,19 @@ def c10(tr, acc, case):
         elif r["k"] == "wait_call":
             by_wid[r["wid"]]["call"].append(r)
     # when did the engine process matching events / timeouts for each waiter
+    replayed = bool((tr.spec.get("meta") or {}).get("replayed_waits"))
     for wid, d in by_wid.items():
         acc.hit("waiter_eval")
-        if len(d["ret"]) > 1:
+        if replayed:
+            # the invocation is executed again after this wait (a later wait of the same step, or a retry): each execution replays the
+            # wait, and every replay must meet the same outcome -- the same event, or TimeoutError every time
+            acc.hit("replayed_wait_eval")
+            if len({r["got_uid"] for r in d["ret"]}) > 1:
+                acc.violation({"mech": "wait_completed_twice", "replayed": True},
+                              f"replays of wait {wid} returned different events (uids {[r['got_uid'] for r in d['ret']]})", case)
+            if len(d["ret"]) + len(d["timeout"]) > 1:
+                acc.hit("wait_replayed_after_its_outcome")
+        elif len(d["ret"]) > 1:
             acc.violation({"mech": "wait_completed_twice"},
                           f"wait {wid} returned an event {len(d['ret'])} times (uids {[r['got_uid'] for r in d['ret']]})", case)
         for r in d["ret"]:
@@ -586,7 +596,7 @@ def c10(tr, acc, case):
             if bad:
                 acc.violation({"mech": "wait_result_violates_requirements"},
                               f"wait {wid} received event uid={r['got_uid']} with {bad} (got, required)", case)
-        if len(d["timeout"]) > 1:
+        if len(d["timeout"]) > 1 and not replayed:
             acc.violation({"mech": "wait_timeout_raised_twice"}, f"wait {wid} raised TimeoutError {len(d['timeout'])} times", case)
         if d["timeout"] and d["ret"]:
             acc.violation({"mech": "wait_both_returned_and_timed_out"}, f"wait {wid} both returned an event and raised TimeoutError", case)
